@@ -30,7 +30,8 @@ INVALID = {
     "statements-in-message-switch": (["message_SwitchTalk ($T) { case 1: a(); }", "message_SwitchMonologue ($T) { case 1: 'x' default: a(); b(); }",
                                       "message_SwitchTalk ($T) { case 1: }"], WRAP_ALL + WRAP_LOOP),
     "label-in-with": (["with (actor A) { @inwith; }", "with (object 3) { §inwith; }"], WRAP_ALL + WRAP_LOOP + WRAP_CASE),
-    "not-on-bit-test": (["if (not $V[3]) { a(); }", "if ($X == 1 || not $V[3]) { a(); }", "if not (not GV[0]) { a(); }", "while (not $V[3]) { a(); }",
+    "not-on-bit-test": (["if (not 5[1]) { a(); }", "if ($X == 1 || not 7[3]) { a(); }", "while (not 0x10[0]) { a(); }", "if ($X == 1) { a(); } elseif (not 3[2]) { b(); }",
+                         "if (not $V[3]) { a(); }", "if ($X == 1 || not $V[3]) { a(); }", "if not (not GV[0]) { a(); }", "while (not $V[3]) { a(); }",
                          "if ($X == 1) { a(); } elseif (not $V[1]) { b(); }", "for ($I = 0; not $V[2]; $I += 1;) { a(); }"], WRAP_ALL + WRAP_LOOP + WRAP_CASE),
     "unknown-macro": (["~nomacro();", "~nomacro(1, 'a');"], WRAP_ALL + WRAP_LOOP + WRAP_CASE),
     "too-few-arguments": (["~two(1);", "~two();"], WRAP_ALL + WRAP_LOOP),
